@@ -93,7 +93,7 @@ def _call(r, key, fn):
     try:
         with warnings.catch_warnings():
             warnings.simplefilter("ignore")
-            return True, fn()
+            return True, r.twice(key, fn)
     except Exception as e:
         r.fail(key + ":raises", "%s: %s" % (type(e).__name__, e))
         return False, None
